@@ -170,7 +170,7 @@ def shard(args):
 
 
 def run(ctx):
-    n = 1500 if ctx.tier == 'quick' else 60000
+    n = 1500 if ctx.tier == 'quick' else 250000
     shards = [{'shard': i, 'n': n} for i in range(common.NCPU)]
     results = common.run_shards('checks.c07', shards, timeout=3000)
     common.merge_shards(ctx, results)
